@@ -7,6 +7,7 @@ import (
 	"log"
 	"os"
 	"runtime"
+	"strings"
 	"time"
 
 	"github.com/rminnich/go9p"
@@ -171,8 +172,147 @@ func c03Cases(tier string, seed int64) []core.Case {
 			return c03HeldPayload(ctx, ms != 1024, ms)
 		}})
 	}
+	for _, dotu := range []bool{true, false} {
+		dotu := dotu
+		cases = append(cases, core.Case{ID: fmt.Sprintf("largest-requests/dotu=%v", dotu), Run: func(ctx *core.Ctx) core.Result { return c03LargestRequests(ctx, dotu) }})
+	}
 	cases = append(cases, sharedFlushCases("C03", tier)...)
 	return cases
+}
+
+// c03LargestRequests: requests whose strings pad them to exactly the negotiated msize (the largest message the
+// protocol allows), and to one and two bytes less, sent while reads are held in the implementation: each gets
+// exactly one reply carrying its tag, and so does everything that was outstanding.
+func c03LargestRequests(ctx *core.Ctx, dotu bool) core.Result {
+	var res core.Result
+	ver := "9P2000"
+	if dotu {
+		ver = "9P2000.u"
+	}
+	for _, ask := range []uint32{256, 1024, 8192} {
+		ctx.Beat()
+		s := NewSess(Config{Dotu: dotu, Msize: 8192})
+		c := s.Dial()
+		rv, err := c.Version(ask, ver, W)
+		if err != nil || rv.Msg == nil || rv.Msg.Type != wire.Rversion {
+			res.Inconclusive = "c03 largest: version failed"
+			c.Hangup()
+			return res
+		}
+		msize := int(rv.Msg.Msize)
+		tag := uint16(0)
+		rpc := func(m *wire.Msg) *wire.Msg {
+			tag++
+			m.Tag = tag
+			r, err := c.Rpc(m, W)
+			if err != nil || r.Msg == nil {
+				return nil
+			}
+			return r.Msg
+		}
+		if a := rpc(&wire.Msg{Type: wire.Tattach, Fid: 1, Afid: wire.NOFID, Uname: "root", Nuname: 0}); a == nil || a.Type != wire.Rattach {
+			res.Inconclusive = "c03 largest: attach failed"
+			c.Hangup()
+			return res
+		}
+		rpc(&wire.Msg{Type: wire.Twalk, Fid: 1, Newfid: 2, Wname: []string{"f"}})
+		rpc(&wire.Msg{Type: wire.Topen, Fid: 2, Mode: 2})
+		// pad builds the request with a string of n bytes and returns it together with its encoded length
+		kinds := []func(n int) *wire.Msg{
+			func(n int) *wire.Msg {
+				return &wire.Msg{Type: wire.Twalk, Fid: 1, Newfid: 30, Wname: []string{strings.Repeat("w", n)}}
+			},
+			func(n int) *wire.Msg {
+				return &wire.Msg{Type: wire.Tattach, Fid: 31, Afid: wire.NOFID, Uname: "root", Nuname: 0, Aname: strings.Repeat("a", n)}
+			},
+			func(n int) *wire.Msg {
+				return &wire.Msg{Type: wire.Twstat, Fid: 1, Stat: wire.Stat{Type: 0xFFFF, Dev: 0xFFFFFFFF, Mode: 0xFFFFFFFF, Atime: 0xFFFFFFFF, Mtime: 0xFFFFFFFF,
+					Length: 0xFFFFFFFFFFFFFFFF, Name: strings.Repeat("n", n), Nuid: wire.NOUID, Ngid: wire.NOUID, Nmuid: wire.NOUID}}
+			},
+			func(n int) *wire.Msg {
+				return &wire.Msg{Type: wire.Tcreate, Fid: 1, Name: strings.Repeat("c", n), Perm: 0o644, Mode: 1}
+			},
+		}
+		for ki, mk := range kinds {
+			base := len(wire.Encode(mk(0), dotu))
+			for _, short := range []int{0, 1, 2} {
+				n := msize - short - base
+				if n < 0 || len(res.Violations) > 0 {
+					continue
+				}
+				// three reads held in the implementation while the large request arrives
+				var held []*script.Plan
+				var heldTags []uint16
+				for i := 0; i < 3; i++ {
+					tag++
+					p := script.NewPlan()
+					p.Gate, p.Entered = make(chan struct{}), make(chan struct{})
+					s.Ops.SetPlan(c.ID, tag, p)
+					held = append(held, p)
+					heldTags = append(heldTags, tag)
+					_ = c.Send(&wire.Msg{Type: wire.Tread, Tag: tag, Fid: 2, Offset: uint64(i), Count: 8})
+				}
+				for _, p := range held {
+					select {
+					case <-p.Entered:
+					case <-time.After(W):
+						res.Inconclusive = "c03 largest: a held read never started"
+						c.Hangup()
+						return res
+					}
+				}
+				m := mk(n)
+				tag++
+				m.Tag = tag
+				raw := wire.Encode(m, dotu)
+				if len(raw) != msize-short {
+					res.Inconclusive = fmt.Sprintf("c03 largest: built %d bytes, wanted %d", len(raw), msize-short)
+					c.Hangup()
+					return res
+				}
+				det := map[string]interface{}{"msize": msize, "request": wire.TypeName(m.Type), "bytes": len(raw), "dotu": dotu}
+				_ = c.SendRaw(raw)
+				res.Evals++
+				rp, err := c.WaitTag(m.Tag, W)
+				for _, p := range held {
+					close(p.Gate)
+				}
+				if err != nil || rp == nil || rp.Msg == nil {
+					res.Violate(fmt.Sprintf("C03;largest-request;no-reply;short=%d", short), fmt.Sprintf("a %s of %d bytes on a connection with msize %d got no reply", wire.TypeName(m.Type), len(raw), msize), det)
+					break
+				}
+				for _, ht := range heldTags {
+					if hr, err := c.WaitTag(ht, W); err != nil || hr.Msg == nil || hr.Msg.Type != wire.Rread {
+						res.Violate(fmt.Sprintf("C03;largest-request;outstanding-lost;short=%d", short), fmt.Sprintf("a read outstanding while a %s of %d bytes (msize %d) arrived got no reply", wire.TypeName(m.Type), len(raw), msize), det)
+						break
+					}
+				}
+				c.Quiesce(W)
+				if extra := c.Pending(); len(extra) > 0 {
+					res.Violate("C03;largest-request;surplus-reply", fmt.Sprintf("%d surplus replies after a %s of %d bytes", len(extra), wire.TypeName(m.Type), len(raw)), det)
+				}
+				// leave no fid behind for the next round
+				if rp.Msg.Type == wire.Rwalk {
+					rpc(&wire.Msg{Type: wire.Tclunk, Fid: 30})
+				}
+				if rp.Msg.Type == wire.Rattach {
+					rpc(&wire.Msg{Type: wire.Tclunk, Fid: 31})
+				}
+				if rp.Msg.Type == wire.Rcreate {
+					rpc(&wire.Msg{Type: wire.Tclunk, Fid: 1})
+					if a := rpc(&wire.Msg{Type: wire.Tattach, Fid: 1, Afid: wire.NOFID, Uname: "root", Nuname: 0}); a == nil || a.Type != wire.Rattach {
+						res.Inconclusive = "c03 largest: re-attach failed"
+						c.Hangup()
+						return res
+					}
+				}
+				res.Sig(fmt.Sprintf("largest|%v|%d|%d|short=%d", dotu, msize, ki, short))
+			}
+		}
+		c.Hangup()
+	}
+	res.Sample(map[string]interface{}{"scenario": "Twalk/Tattach/Twstat/Tcreate padded to msize, msize-1, msize-2 with three reads held", "dotu": dotu})
+	return res
 }
 
 // c03SecondFullAnswer: the connection's writer is parked on an earlier reply, so the answers of the following requests
